@@ -426,7 +426,19 @@ Theorem tie_C16_general_path : forall (o : opt) (r : re) (line0 : bytes) (fields
   of_rres_cut (cut_str o line0) (gen_cut_str line0 o fields0 buf0 [o_eol o]).
 Proof. exact tie_cut_str_regex. Qed.
 
+(** C07 over the translated general path: with -c, on a record that is valid UTF-8, the translated [cut_str]
+    (the regex splitter on the empty match at every scalar boundary, the two empty end pieces dropped) does
+    what the model's [cut_str] does, for every combination of -s -m --json -j -r, format text and fallbacks *)
+Theorem tie_C07_general_path : forall (o : opt) (line0 : bytes) (ms : list mtch) (fields0 : list (Z * Z)) (buf0 : list byte),
+  o_regex o = Some RxChars -> o_btype o = BChars -> o_trim o = None ->
+  Forall item_nz (items (o_bounds o)) ->
+  char_matches line0 = Some ms ->
+  Z.of_nat (length (drop_outer (fields_of_matches ms line0))) <= i32_max ->
+  of_rres_cut (cut_str o line0) (gen_cut_str line0 o fields0 buf0 [o_eol o]).
+Proof. exact tie_cut_str_chars. Qed.
+
 Print Assumptions tie_try_into_range_spec.
+Print Assumptions tie_C07_general_path.
 Print Assumptions tie_C16_general_path.
 Print Assumptions tie_C01_record_as_a_function_of_its_fields.
 Print Assumptions tie_C10_cut_str_ignores_its_buffers.
